@@ -55,7 +55,7 @@ func mvtIDSpecs(thorough bool) []composeSpec {
 		},
 	}
 	return []composeSpec{dispatchSpec, {
-		entry: "encoding/mvt.convertIntID", anyPath: true,
+		entry: "encoding/mvt.convertIntID", anyPath: true, optional: true,
 		cases: []composeCase{
 			mk("any id >= 0", 0, math.MaxInt64, false),
 			mk("id 0..1", 0, 1, false),
